@@ -91,6 +91,7 @@ func Specs(o Oracle, quick bool) []*Spec {
 		}
 	case C11:
 		if quick {
+			add(ingestRewriteSpec(true)) // first: small, and must not fall victim to the budget on a loaded machine
 			add(&Spec{Name: "plain-skiplist-b1-sync", Cfg: dbh.Config{Engine: "skiplist", Buckets: 1, VlogFileSize: tinyVlog, SyncWrites: true},
 				Mode: "plain", Client: []string{"s:a", "b:a", "d:a"}, Maint: []string{"rf", "gc"}, MaxClient: 2, MaxMaint: 1, Depth: 3, PostDepth: 2, PostCrash: true, PostPut: true})
 			add(&Spec{Name: "txn-art-b2-sync", Cfg: dbh.Config{Engine: "art", Buckets: 2, VlogFileSize: tinyVlog, SyncWrites: true},
@@ -103,6 +104,7 @@ func Specs(o Oracle, quick bool) []*Spec {
 		} else {
 			add(&Spec{Name: "txn-gc-orphan-sync", Cfg: dbh.Config{Engine: "skiplist", Buckets: 1, VlogFileSize: pairVlog, SyncWrites: true},
 				Mode: "txn", Client: []string{"t:x=b", "t:x=d", "t:x=b,y=b"}, Maint: []string{"rf"}, MaxClient: 3, MaxMaint: 1, Depth: 3, PostDepth: 3, PostCrash: true, PostPut: true})
+			add(ingestRewriteSpec(false))
 			add(gcSpec("plain-gc-rewrite-nosync", false, 5, 3))
 			add(gcSpec("plain-gc-rewrite-sync", true, 5, 2))
 			add(&Spec{Name: "plain-skiplist-b1-nosync", Cfg: dbh.Config{Engine: "skiplist", Buckets: 1, VlogFileSize: tinyVlog},
@@ -116,6 +118,27 @@ func Specs(o Oracle, quick bool) []*Spec {
 		}
 	}
 	return out
+}
+
+// ingestRewriteSpec: the manifest is REWRITTEN on every edit (threshold 1 byte) while tables
+// with overlapping key ranges but disjoint keys ({a,c} and {b}) travel L0 -> base-level ingest
+// buffer -> level; every crash point of those steps (including the ones inside the rewrite:
+// new MANIFEST written, CURRENT.tmp written, renamed, old MANIFEST removed) is recovered, and
+// the post schedules (flush, L0->base move, ingest merge/drain, second crash+reopen at any
+// position) must leave all reads unchanged: what a rewritten manifest says about levels and
+// ingest buffers has to reload to the same visible contents.
+func ingestRewriteSpec(quick bool) *Spec {
+	s := &Spec{Name: "plain-ingest-manifest-rewrite", Cfg: dbh.Config{Engine: "skiplist", Buckets: 1, VlogFileSize: tinyVlog, SyncWrites: true, ManifestRewrite: 1},
+		Mode: "plain", PostDepth: 3, PostCrash: true}
+	if quick {
+		s.Prefix = []string{"s:a", "s:c", "rf"}
+		s.Client, s.Maint = []string{"s:b"}, []string{"rf", "l0-base", "ingest-keep", "ingest-drain"}
+		s.MaxClient, s.MaxMaint, s.Depth = 3, 4, 3
+	} else {
+		s.Client, s.Maint = []string{"s:a", "s:c", "s:b", "d:b"}, []string{"rf", "l0-base", "ingest-keep", "ingest-drain"}
+		s.MaxClient, s.MaxMaint, s.Depth, s.ShardAt = 3, 3, 5, 3
+	}
+	return s
 }
 
 func withSync(c dbh.Config, sync bool) dbh.Config {
